@@ -57,6 +57,7 @@ def main(argv):
                 c.violation("DigestAuth::sign does not produce HMAC-%s-96 at offset %d of a %d-octet message (%s build)" % ("MD5" if alg == "1" else "SHA", off, len(m), prof),
                             {"cmd": ln, "expected": want.hex(), "observed": o, "profile": prof}, key="sign:" + alg)
     c.sample({"cmd": lines[0][:120], "out": ro[0][:120]})
+    codec.crosscheck_v3(c, lines, mo)
     # ---- whole datagrams of real sessions: sizes swept so that every header takes short / 0x81 / 0x82 form
     scs = []
     for auth in (None, "md5", "sha1"):
